@@ -6,7 +6,10 @@ from .. import gen, spec as S, build as B, refmodel as R, drive as D, monitor as
 from . import common
 
 
-def factories():
+def factories(rot=None, frac=4):
+    """(group, index, encoder factory, imputer factory, imputer label).  Always: every registered encoder with its
+    default imputer and every imputer with two representative encoders.  The rest of the encoder x imputer cross
+    product rotates with the case number `rot` (a 1/frac share per case; rot=None: all of it, used by replays)."""
     import adsg_core.optimization.assign_enc.encoder_registry as reg
     out = []
     for grp, lst, imp in (('eager', reg.EAGER_ENCODERS, reg.DEFAULT_EAGER_IMPUTER),
@@ -22,6 +25,14 @@ def factories():
     for j, imp in enumerate(reg.LAZY_IMPUTERS):
         out.append(('lazy', 0, reg.LAZY_ENCODERS[0], imp, 'imp%d' % j))
         out.append(('lazy', 3, reg.LAZY_ENCODERS[3], imp, 'imp%d' % j))
+    have = {(g, i, n) for g, i, _f, _i, n in out}
+    for grp, encs, imps in (('eager', reg.EAGER_ENCODERS, reg.EAGER_IMPUTERS), ('lazy', reg.LAZY_ENCODERS, reg.LAZY_IMPUTERS)):
+        for i, f in enumerate(encs):
+            for j, imp in enumerate(imps):
+                if (grp, i, 'imp%d' % j) in have:
+                    continue
+                if rot is None or (rot + i * 3 + j) % frac == 0:
+                    out.append((grp, i, f, imp, 'imp%d' % j))
     return out
 
 
@@ -29,7 +40,7 @@ def mat_t(m):
     return tuple(tuple(int(v) for v in row) for row in m)
 
 
-def check_settings(cs, col, fsel=None, cap=250, budget=6.0, groups=None):
+def check_settings(cs, col, fsel=None, cap=250, budget=6.0, groups=None, rot=0, frac=4):
     import adsg_core.optimization.assign_enc.matrix as mx
     from adsg_core.optimization.assign_enc.lazy_encoding import LazyEncoder
     from adsg_core.optimization.assign_enc.assignment_manager import AssignmentManager, LazyAssignmentManager
@@ -44,7 +55,7 @@ def check_settings(cs, col, fsel=None, cap=250, budget=6.0, groups=None):
         col.count('skipped_too_many_matrices')
         return
     nontrivial = False
-    for grp, idx, fac, imp, imp_name in factories():
+    for grp, idx, fac, imp, imp_name in factories(None if fsel is not None else rot, frac):
         if fsel is not None and (grp, idx, imp_name) != tuple(fsel):
             continue
         if groups is not None and grp not in groups:
@@ -338,9 +349,10 @@ def worker(task, col):
         return
     if task['shard'] == 0:
         for c in common.corpus('C10'):
-            common.guard(col, check_settings, c['spec'], col)
+            common.guard(col, check_settings, c['spec'], col, rot=None)   # corpus: the whole cross product
     for i in range(task['lo'], task['hi']):
-        common.guard(col, check_settings, gen_case(task['seed'], i), col, cap=task.get('cap', 250))
+        common.guard(col, check_settings, gen_case(task['seed'], i), col, cap=task.get('cap', 250), rot=i,
+                     frac=task.get('frac', 4))
 
 
 def main(run):
@@ -350,7 +362,7 @@ def main(run):
         if run.tier == 'quick':
             tasks = common.shard_tasks(48, run.jobs, cap=60)
         else:
-            tasks = common.shard_tasks(1600, 32, cap=400)
+            tasks = common.shard_tasks(1600, 32, cap=400, frac=2)
             for mode, env in (('boundscheck', {'NUMBA_BOUNDSCHECK': '1'}), ('nojit', {'NUMBA_DISABLE_JIT': '1'})):
                 for t in common.shard_tasks(96, 8, cap=150):
                     t['_env'] = env
